@@ -34,7 +34,7 @@ C05_FUNCS = ["quantile_score", "quantile_interval_score", "interval_score", "mse
 
 
 # counters that every complete run must have incremented (harness self-check, see core.run_check)
-EXPECT_COUNTS = ['pinball_grid_points', 'interval_grid_points', 'angular_grid_points', 'conditioning', 'label_oracle', 'label_oracle:obs_source_dim', 'label_oracle:weights', 'pandas:']
+EXPECT_COUNTS = ['pinball_grid_points', 'interval_grid_points', 'angular_grid_points', 'conditioning', 'infinite_values', 'label_oracle', 'label_oracle:obs_source_dim', 'label_oracle:weights', 'pandas:']
 
 def kernel_grids(ctx):
     """regenerated kernel vs proved specification vs implementation on the full tie grid"""
@@ -116,7 +116,11 @@ def run(ctx):
             if not ctx.time_left():
                 break
             angles = getattr(fn, "has_angular", False) and rng.random() < 0.3
-            arrs, w, sizes = scorelib.gen_arrays(rng, fn, angles=angles)
+            # infinite values are data, not missing values; rmse (sqrt on the host) and the moment scores (inf - inf inside the
+            # documented formula) are left to finite inputs
+            arrs, w, sizes = scorelib.gen_arrays(rng, fn, angles=angles, inf_p=0.0 if (name == "rmse" or fn.kind == "moments") else 0.2)
+            if any(np.isinf(a.values).any() for a in arrs):
+                ctx.count("infinite_values")
             bad = rng.random() < 0.1
             extra = fn.gen_extra(rng, bad=bad)
             if angles:
